@@ -187,6 +187,14 @@ def run_check(prop, tier, seed, jobs=None):
     if hasattr(mod, 'setup'):
         mod.setup(tier, seed)
     items = list(mod.items(tier, seed))
+    only = os.environ.get('MC_ONLY')
+    if only:
+        # development aid: run the work items whose JSON matches; such a run is not a check (evidence dir must be
+        # redirected and the evidence says so)
+        if not os.environ.get('MC_EVIDENCE_DIR'):
+            raise SystemExit('MC_ONLY needs MC_EVIDENCE_DIR (a filtered run never writes /verif/evidence)')
+        import re as _re
+        items = [it for it in items if _re.search(only, json.dumps(it, sort_keys=True, default=str))]
     if hasattr(mod, 'cost'):
         items.sort(key=lambda it: -mod.cost(it))   # long items first: better packing of the pool
     jobs = jobs or int(os.environ.get('MC_JOBS') or min(16, os.cpu_count() or 1))
@@ -269,7 +277,7 @@ def run_check(prop, tier, seed, jobs=None):
         'states': int(tot['states']),
         'transitions': int(tot['transitions']),
         'traces_validated_against_impl': int(tot['transitions']),
-        'exhaustive': True,
+        'exhaustive': not os.environ.get('MC_ONLY'),
         'distinct_observed_outcomes': len(outcomes),
         'distinct_abstract_states': len(abstract),
         'work_items': len(items),
